@@ -63,6 +63,14 @@ def lock_programs():
     out.append((('DEF0', (('FAIL',),)), ('CALL0',), ('T',)))
     out.append((('DEF0', ()), ('CALL0',), ('T',)))
     out.append((('SETV',), ('GETV',), ('VERIFYW',), ('T',)))
+    # forward references between the lock's own functions, and functions (re)defined after they were first used:
+    # a function body calls whatever is defined under the handle when the call executes
+    out.append((('DEF0', (('CALL1',),)), ('DEF1', (('FAIL',),)), ('CALL0',), ('T',)))
+    out.append((('DEF0', (('CALL1',),)), ('DEF1', ()), ('CALL0',), ('T',)))
+    out.append((('DEF1', ()), ('DEF0', (('CALL1',),)), ('DEF1', (('FAIL',),)), ('CALL0',), ('T',)))
+    out.append((('DEF1', (('FAIL',),)), ('DEF0', (('CALL1',),)), ('DEF1', ()), ('CALL0',), ('T',)))
+    out.append((('DEF0', (('IFT', (('CALL1',),)),)), ('DEF1', (('FAIL',),)), ('CALL0',), ('T',)))
+    out.append((('DEF0', (('EVAL', (('CALL1',),)),)), ('DEF1', (('FAIL',),)), ('CALL0',), ('T',)))
     return list(dict.fromkeys(out))
 
 
@@ -184,6 +192,50 @@ def malformed_scripts(ctx, case):
     ctx.evaluations += 2
 
 
+def host_stack_cases():
+    """scripts that exhaust the host interpreter's stack before any tapescript limit: deep static nesting and
+    recursion routed through several nested bodies per call level"""
+    out = []
+    T_, IF_ = b'\x01', b'\x2b'
+    for depth in (50, 200, 400, 600, 1000, 3000):
+        body = b'\x01'
+        for _ in range(depth):
+            if len(body) > 65000:
+                break
+            body = T_ + IF_ + len(body).to_bytes(2, 'big') + body
+        out.append(('nested IF x%d' % depth, body))
+    for k in (1, 2, 3, 4, 6):
+        inner = b'\x2a\x00'
+        for _ in range(k):
+            inner = T_ + IF_ + len(inner).to_bytes(2, 'big') + inner
+        out.append(('recursion through %d nested IF' % k, b'\x29\x00' + len(inner).to_bytes(2, 'big') + inner + b'\x2a\x00'))
+        ev = b'\x1d\x2d'                       # DUP EVAL
+        for _ in range(k):
+            ev = T_ + IF_ + len(ev).to_bytes(2, 'big') + ev
+        out.append(('self-EVAL through %d nested IF' % k, b'\x03' + bytes([len(ev)]) + ev + b'\x1d\x2d'))
+    return out
+
+
+def host_stack(ctx, case):
+    """whatever happens inside (including the host's RecursionError), run_auth_scripts returns a bool and does not raise"""
+    name, script = case
+    n = 0
+    for scripts in ([script], [b'\x01', script], [script, b'\x01']):
+        for limits in (DEFAULT_LIMITS, (1024, 1024, 5000)):
+            n += 1
+            ctx.state(('host', name, len(scripts), limits))
+            got, exc = run_impl(scripts, {}, limits)
+            ctx.ran()
+            ctx.trans(len(scripts))
+            ctx.outcome('host:%s' % (got if exc is None else type(exc).__name__))
+            if exc is not None:
+                ctx.violation({'family': 'host stack exhaustion', 'clause': 'never raises', 'exc': type(exc).__name__},
+                              f'{name} as {len(scripts)} script(s), limits {limits}: raised {exc!r}')
+            elif type(got) is not bool:
+                ctx.violation({'family': 'host stack exhaustion', 'clause': 'returns a bool'}, f'{name}: {got!r}')
+    ctx.evaluations += n - 1
+
+
 def wit_lock_cfg(ctx, w):
     """small witnesses x locks x every initial cache x every limit triple"""
     wb = spaces.render(w)
@@ -261,6 +313,9 @@ def blocks(tier, seed):
         Block('malformed_scripts', lambda s, n: spaces.malformed(nmal, 'full', s, n), malformed_scripts,
               'every byte-prefix and single-byte perturbation of every full-grammar program with <= %d nodes, alone / as lock / as witness' % nmal,
               nshards=64 if q else 256),
+        Block('host_stack_exhaustion', host_stack_cases(), host_stack,
+              'static IF nesting 50..3000 deep and CALL / self-EVAL recursion through 1..6 nested IF bodies, default and raised '
+              'call-stack limit, alone / as lock / as witness', nshards=16),
         Block('raw_single_len<=2', [b''] + [bytes([b]) for b in range(256)], raw_single,
               'every single script of length 1..2 over all byte values', nshards=64),
         Block('raw_pairs_len<=1', [b''] + [bytes([b]) for b in range(256)], raw_pair,
